@@ -239,4 +239,23 @@ Record sim (from to : addr) (s s' : state) : Prop := {
   sm_q : forall t, qrel from to (ubd_slice s t) (ubd_slice s' t)
 }.
 
+(* the redelegation side of the relation *)
+Definition qrel3 (from to : Z) (l l' : list (Z * (Z * Z))) : Prop :=
+  Forall2 (fun p p' => p' = p \/ (fst p = from /\ p' = (to, snd p))) l l'.
+Definition i36_of (s : state) (a v w : Z) : option unit := sget k3_eqb (a, (v, w)) (idx36 (stake s)).
+
+Record simR (from to : addr) (s s' : state) : Prop := {
+  sr_clean : forall v w, red_of s to v w = None /\ i36_of s to v w = None;
+  sr_red : forall a v w, red_of s' a v w = sel from to a (option_map (to_red to) (red_of s from v w)) None (red_of s a v w);
+  sr_i36 : forall a v w, i36_of s' a v w = sel from to a (i36_of s from v w) None (i36_of s a v w);
+  sr_q : forall t, qrel3 from to (red_slice s t) (red_slice s' t)
+}.
+
+Definition sim2 (from to : addr) (s s' : state) : Prop := sim from to s s' /\ simR from to s s'.
+
+(* all by-validator indexes and the unbonding-id index exact (decidable form, evaluated on the real states) *)
+Definition idxallb (s : state) : bool :=
+  matchb k2_eqb (dels (stake s)) (idx71 (stake s)) && matchb k2_eqb (ubds (stake s)) (idx33 (stake s)) &&
+  matchb k3_eqb (reds (stake s)) (idx35 (stake s)) && matchb k3_eqb (reds (stake s)) (idx36 (stake s)) && idx38b s.
+
 Definition balposb (s : state) : bool := forallb (fun kv : (Z * Z) * Z => 0 <=? snd kv) (bal s).
